@@ -20,9 +20,13 @@ let parse_tab offs_s trans_s : tzdata =
 let show_sa (ntop6: string) (sa: sockaddr) : string =
   let n6 = (fun _ -> bytes_of_str ntop6) in
   Printf.sprintf "fam=%s addr=%s port=%s toIp=%s toIpPort=%s port()=%s"
-    (match sa.sa_family with AF_INET -> "4" | AF_INET6 -> "6")
+    (if sa.sa_family = aF_INET6 then "6" else "4")
     (hex_of_bytes sa.sa_addr) (hex_of_bytes sa.sa_port)
-    (str_of_bytes (toIp n6 sa)) (str_of_bytes (toIpPort n6 sa)) (si (port_load sa.sa_port))
+    (str_of_bytes (toIp n6 sa)) (str_of_bytes (toIpPort n6 sa)) (si (inet_port sa))
+let show_table (tb: tzdata) : string =
+  let o = String.concat "," (List.map si tb.offs) in
+  let t = String.concat "," (List.map (fun tr -> si tr.tutc ^ ":" ^ string_of_int (int_of_nat tr.tidx)) tb.trans) in
+  (if o = "" then "-" else o) ^ " " ^ (if t = "" then "-" else t)
 let () =
   let tb = ref { trans = []; offs = [Z0] } in
   (try while true do
@@ -61,8 +65,13 @@ let () =
         Printf.printf "TS %s|%s|%s\n" (str_of_bytes (ts_toString u)) (str_of_bytes (ts_toFormatted u true)) (str_of_bytes (ts_toFormatted u false))
     | ["BE"; k; x] ->
         let k = int_of_string k in
-        let e = be_encode (nat_of_int k) (zi x) in
-        Printf.printf "BE %s %s %s\n" (hex_of_bytes e) (si (be_decode e)) (si (be_decode_signed e))
+        let (e, d) = be_op (nat_of_int k) (zi x) in
+        Printf.printf "BE %s %s %s\n" (hex_of_bytes e) (si d) (si (to_signed (nat_of_int k) d))
+    | ["TZB"; hex] ->
+        (match tzif_parse (unhex hex) with
+         | TzOk tb -> Printf.printf "tzif ok %s\n" (show_table tb)
+         | TzFail -> print_string "tzif fail\n"
+         | TzUndefined -> print_string "tzif undefined\n")
     | ["IP"; texthex; port; flag; p6; n6] ->
         let text = unhex texthex in
         let pton6 = (fun _ -> if p6 = "-" then None else Some (unhex p6)) in
